@@ -305,4 +305,158 @@ func TestReplay(t *testing.T) { vf.ReplayEnv(t) }
 
 // native fuzz targets (thorough tier): the fuzzer mutates the byte stream that rapid decodes into generator choices
 func FuzzUniformPB(f *testing.F) { vf.FuzzNamed(f, "C03", "uniform-pb") }
-func FuzzCovering(f *testing.F) { vf.FuzzNamed(f, "C03", "covering") }
+func FuzzCovering(f *testing.F)  { vf.FuzzNamed(f, "C03", "covering") }
+
+// ---- optimisation with restarts inside: soft pigeonhole, optimum known by construction ------------------
+
+// SoftPHP: holes+1 pigeons, holes holes. "Pigeon p sits somewhere" may be given up at a price W[p] (a relaxation
+// variable r_p in its clause, the cost function is the weighted sum of the r_p); "two pigeons never share a hole" is
+// hard. Forced lists extra cost literals fixed by unit clauses (always paid). One pigeon at least has to be
+// given up, so the optimum is the smallest weight plus the fixed costs. Proving
+// it takes hundreds to thousands of conflicts: restarts and clause-database reductions happen between two improvements.
+type SoftPHP struct {
+	Holes  int    `json:"holes"`
+	W      []int  `json:"w"`
+	Forced []int  `json:"forced,omitempty"`
+	Entry  string `json:"entry"` // optimal-nil | optimal-chan | minimize
+	NbMax  int    `json:"nbmax,omitempty"`
+}
+
+func checkSoftPHP(c SoftPHP, o *vf.Obs) error {
+	gs.Arm(c.NbMax, 300_000_000)
+	defer gs.Arm(0, 0)
+	holes, pigeons := c.Holes, c.Holes+1
+	n := pigeons * holes
+	v := func(p, h int) int { return p*holes + h + 1 }
+	r := func(p int) int { return n + p + 1 }
+	var cls [][]int
+	for p := 0; p < pigeons; p++ {
+		cl := []int{r(p)}
+		for h := 0; h < holes; h++ {
+			cl = append(cl, v(p, h))
+		}
+		cls = append(cls, cl)
+	}
+	for h := 0; h < holes; h++ {
+		for p := 0; p < pigeons; p++ {
+			for q := p + 1; q < pigeons; q++ {
+				cls = append(cls, []int{-v(p, h), -v(q, h)})
+			}
+		}
+	}
+	// extra cost literals fixed by unit clauses: u_k (Forced[k] > 0: the unit clause u_k, cost on u_k) or
+	// (Forced[k] < 0: the unit clause not u_k, cost on not u_k), weight |Forced[k]|: always paid
+	want := c.W[0]
+	for _, w := range c.W {
+		if w < want {
+			want = w
+		}
+	}
+	var lits []solver.Lit
+	weights := append([]int{}, c.W...)
+	for p := 0; p < pigeons; p++ {
+		lits = append(lits, solver.IntToLit(int32(r(p))))
+	}
+	nv := n + pigeons
+	var fixed [][2]int // literal, weight
+	for _, f := range c.Forced {
+		if f == 0 {
+			continue
+		}
+		nv++
+		l, w := nv, f
+		if f < 0 {
+			l, w = -nv, -f
+		}
+		cls = append(cls, []int{l})
+		lits = append(lits, solver.IntToLit(int32(l)))
+		weights = append(weights, w)
+		fixed = append(fixed, [2]int{l, w})
+		want += w
+	}
+	forced := fixed
+	pb := solver.ParseSliceNb(oracle.CloneCNF(cls), nv)
+	pb.SetCostFunc(lits, append([]int{}, weights...))
+	s := solver.New(pb)
+	var cost int
+	var model []bool
+	switch c.Entry {
+	case "minimize":
+		cost = s.Minimize()
+		if cost >= 0 {
+			model = s.Model()
+		}
+	case "optimal-chan":
+		ch := make(chan solver.Result)
+		done := make(chan struct{})
+		go func() {
+			for range ch {
+			}
+			close(done)
+		}()
+		res := s.Optimal(ch, nil)
+		<-done
+		cost, model = res.Weight, res.Model
+		if res.Status != solver.Sat {
+			cost = -1
+		}
+	default:
+		res := s.Optimal(nil, nil)
+		cost, model = res.Weight, res.Model
+		if res.Status != solver.Sat {
+			cost = -1
+		}
+	}
+	o.Class("entry-" + c.Entry)
+	o.Class(fmt.Sprintf("holes-%d", holes))
+	o.ClassIf(len(forced) > 0, "cost-variables-fixed-by-units")
+	o.ClassIf(s.Stats.NbRestarts > 0, "restart>0")
+	o.ClassIf(s.Stats.NbDeleted > 0, "reduceDB>0")
+	if s.Stats.NbConflicts >= 200 {
+		o.Nontrivial()
+	}
+	if cost < 0 || model == nil {
+		return fmt.Errorf("%s answers Unsat / no model on a satisfiable problem (optimum %d by construction)", c.Entry, want)
+	}
+	if i := oracle.ModelSatisfies(cls, model); i >= 0 {
+		return fmt.Errorf("%s: the returned model violates the clause %v (%d conflicts, %d restarts)", c.Entry, cls[i], s.Stats.NbConflicts, s.Stats.NbRestarts)
+	}
+	got := 0
+	for p := 0; p < pigeons; p++ {
+		if model[r(p)-1] {
+			got += c.W[p]
+		}
+	}
+	for _, f := range fixed {
+		if f[0] > 0 && model[f[0]-1] || f[0] < 0 && !model[-f[0]-1] {
+			got += f[1]
+		}
+	}
+	if got != cost {
+		return fmt.Errorf("%s: reported cost %d, the cost function on the returned model gives %d", c.Entry, cost, got)
+	}
+	if cost != want {
+		return fmt.Errorf("%s: reported optimum %d, the optimum is %d by construction (weights %v, forced %v; %d conflicts, %d restarts)", c.Entry, cost, want, c.W, c.Forced, s.Stats.NbConflicts, s.Stats.NbRestarts)
+	}
+	return nil
+}
+
+func genSoftPHP(t *rapid.T) SoftPHP {
+	c := SoftPHP{Holes: rapid.SampledFrom([]int{5, 6, 6, 7}).Draw(t, "holes"), Entry: rapid.SampledFrom([]string{"optimal-nil", "optimal-chan", "minimize"}).Draw(t, "entry")}
+	for p := 0; p <= c.Holes; p++ {
+		c.W = append(c.W, rapid.IntRange(1, 6).Draw(t, "w"))
+	}
+	for i, k := 0, rapid.IntRange(0, 2).Draw(t, "forced"); i < k; i++ {
+		c.Forced = append(c.Forced, rapid.SampledFrom([]int{-7, -3, -1, 1, 2, 5, 8}).Draw(t, "f"))
+	}
+	if rapid.Bool().Draw(t, "low") {
+		c.NbMax = rapid.IntRange(20, 300).Draw(t, "limit")
+	}
+	return c
+}
+
+func init() {
+	vf.Register(vf.Sub[SoftPHP]{Name: "soft-pigeonhole", Quick: 30, Thorough: 300, Gen: genSoftPHP, Check: checkSoftPHP, Floor: 0.4,
+		Classes: map[string]float64{"restart>0": 0.3},
+		Rule:    "holes+1 pigeons in 5..7 holes; giving up pigeon p costs W[p] in 1..6 (relaxation variable in its clause, weighted cost function), sharing a hole is forbidden; 0..2 further cost literals (of either sign) are fixed by unit clauses; the optimum is known by construction (smallest weight plus the fixed costs) and proving it takes hundreds to thousands of conflicts, with restarts and clause-database reductions between two improvements; entry points Optimal(nil), Optimal(chan), Minimize; asserted: valid model, reported cost = cost of the model = optimum; non-trivial = >= 200 conflicts"})
+}
